@@ -132,6 +132,23 @@ func c18LiteralSeed(r *core.Rng) string {
 // from every clause form of the SELECT grammar.
 func c18SubquerySeed(r *core.Rng) string {
 	pick := func(xs ...string) string { return xs[r.Intn(len(xs))] }
+	if r.P(25) {
+		// analytic functions with a windowing clause, every frame form (offsets from zero upwards); the values of all rows are
+		// gathered into one, so that the printed sub-query is compared over the whole column
+		pos := func(lo bool) string {
+			if lo {
+				return pick("UNBOUNDED PRECEDING", "0 PRECEDING", "1 PRECEDING", "2 PRECEDING", "CURRENT ROW", "0 FOLLOWING", "1 FOLLOWING")
+			}
+			return pick("UNBOUNDED FOLLOWING", "0 FOLLOWING", "1 FOLLOWING", "2 FOLLOWING", "CURRENT ROW", "0 PRECEDING", "1 PRECEDING")
+		}
+		frame := "ROWS " + pick("UNBOUNDED PRECEDING", "0 PRECEDING", "1 PRECEDING", "3 PRECEDING", "CURRENT ROW")
+		if r.P(70) {
+			frame = "ROWS BETWEEN " + pos(true) + " AND " + pos(false)
+		}
+		fn := pick("SUM(id)", "COUNT(*)", "MAX(id)", "LISTAGG(c1, '/')", "FIRST_VALUE(id)", "LAST_VALUE(c1)", "NTH_VALUE(id, 2)", "JSON_AGG(id)", "AVG(id)")
+		over := pick("", "PARTITION BY c1 ") + "ORDER BY " + pick("id", "id DESC", "c1 NULLS LAST, id") + " " + frame
+		return "SELECT (SELECT LISTAGG(x, ';') FROM (SELECT " + fn + " OVER (" + over + ") AS x FROM t1) s)" + pick("", " AS y", ", 1")
+	}
 	join := func() string {
 		switch r.Intn(9) {
 		case 0:
